@@ -85,4 +85,10 @@ func init() {
 		explanation: "Decides the structural clauses behind SQL transaction atomicity: the store transaction of a SQL transaction is committed at exactly one site (SQLTx.Commit), closed transactions are refused, cancel paths reach the store's Cancel (ROLLBACK statement, session rollback, every function that drops sessions), all SQL writes go through the SQLTx wrappers of one store transaction, and ROLLBACK TO SAVEPOINT must reach the store write-set (it does not today: known finding). It does NOT decide isolation between concurrent sessions (C05) nor the pgsql front-end.",
 		assumptions: []string{},
 	})
+	register("C08", &propDef{
+		patterns: []string{"./embedded/ahtree", "./embedded/htree", "./embedded/store"},
+		run:      c08,
+		explanation: "Decides structural clauses of the Merkle constructions: domain-separation constants and their use at every tree hash site (prefix byte, buffer size, both children copied); verifiers guard evaluation with i<=j and i!=0, compare the evaluated root(s) with the claimed one(s), every verifier parameter influences the verdict beyond a zero check, the entry-tree verifier ties the number of terms to (Leaf, Width); ResetSize syncs and invalidates both caches before shrinking and never grows; Append rewinds both logs to their committed sizes before writing and advances sizes only when the batch sync did not fail. It does NOT decide equality of roots/proofs with the reference construction (digest-log arithmetic).",
+		assumptions: []string{"sha256"},
+	})
 }
